@@ -5,6 +5,10 @@ pid = sys.argv[1]; variant = sys.argv[2] if len(sys.argv) > 2 else ''
 wt = '/tmp/wt/%s%s' % (pid, variant); out = '/tmp/seed/%s%s' % (pid, variant)
 extra = ('- The statement has several sentences/clauses and the mechanism spans several functions (and often several files/dialects). Do NOT take the first, most obvious spot: '
          'survey the candidates first, then pick a less obvious one (a different clause of the statement, a secondary code path, a helper, an exception path, a sibling implementation).') if variant else ''
+if variant >= 'c':
+    extra += ('\n- To spread the choices: first write down AT LEAST TEN candidate spots (function + what you would change + which clause it breaks) in ' + out + '/candidates.md, '
+              'covering at least three different files where the mechanism allows; then pick one with `python3 -c "import random; print(random.randrange(10))"` '
+              '(re-draw if that candidate turns out not to be feasible). Prefer candidates outside the single most central function.')
 p = [json.loads(l) for l in open('/verif/properties.jsonl') if json.loads(l)['id'] == pid][0]
 print(f"""You are helping to evaluate a verification tool. Your job: make ONE small, realistic change to the Python ORM "Pony" (ponyorm/pony) that BREAKS the property below, while the code still imports/compiles and the project's existing test suite still passes exactly as before.
 
